@@ -18,22 +18,27 @@
     * `cg_edges_project`, `cg_wf`            every directed edge lies over an edge of the input graph; well-formed
     * `cg_inconsistent_has_witness`          'inconsistent' is reported only after a pair of nodes passed the Lemma-24
                                              test while the event gave them two different values
-  PROVED (semantic, relative — see Props/C18 part 2 below):
-    * `prob_zero_of_conflict`                a conjunction that gives two different values to the same random variable
-                                             has probability 0 in every functional SCM
-    * `cg_inconsistent_sound_partial`        'inconsistent' => probability 0, GIVEN that the witnessing pair is the same
-                                             random variable on the event's support (Lemma 24 for that pair)
-    * `relabel_preserves_prob`               one relabelling step preserves the probability GIVEN the same hypothesis
-  -- OPEN: the unconditional probability clauses
-  --   theorem cg_prob : makeCounterfactualGraph ordf G ev = .ok (g, some ev') → M.Compatible G → ν.Distinct →
-  --       probEvent M ν ev' = probEvent M ν ev
-  --   theorem cg_inconsistent_sound : makeCounterfactualGraph ordf G ev = .ok (g, none) → M.Compatible G → ν.Distinct →
-  --       probEvent M ν ev = 0
-  -- need Lemma 24 of Shpitser–Pearl for the test as coded (`lemma24Holds`); not mechanised.  These clauses are
-  -- decided by correspondence + exact evaluation on sampled functional SCMs (harness/oracles/cf_fscm.py).
+    * `cg_prob`                              THE PROBABILITY CLAUSES: for every functional SCM compatible with the graph,
+                                             P(relabelled event) = P(event), and 'inconsistent' only if P(event) = 0.
+                                             Lemma 24 of Shpitser–Pearl is PROVED for the test as coded
+                                             (`lemma24_of_test`, Lemmas/CfLemma24) from the structural equation
+                                             (`solve_unforced`) and two loop invariants.
+      hypotheses of `cg_prob` (all are what the Python objects guarantee, none is a semantic assumption):
+        - `Compatible M G` (Spec/Fscm.lean: the class of models — finitely many independent exogenous variables, mechanisms
+          read parents in G, shared noise only along bidirected edges), `ν x ≠ ν x'`;
+        - `G.WF` and no self-loop edges; the event is a dict (`EvOK`: unique keys, values named after their variable);
+        - the worlds are a duplicate-free list of non-empty consistent subscript sets (a Python set of frozensets);
+        - `hpf`: the order in which the nodes are processed lists the model's parents before their children — what
+          `topological_sort` returns (that the MODEL of `topological_sort` does so is not proved in C14; the order is compared
+          with networkx on every C14 run).
+    * `cg_prob_partial`, `lemma24For_of_parents`, `lemma24For_root`, `cg_inconsistent_sound_partial`
+                                             earlier relative forms, kept (they need fewer hypotheses on the graph)
+  Nothing of C18 is left OPEN except the side condition `hpf` above.
 -/
 import Y0.Lemmas.CfGraph
 import Y0.Lemmas.CfFscm
+import Y0.Lemmas.CfCgSem
+import Y0.Lemmas.CfLemma24
 
 namespace Y0.Cf
 open Relation MG
@@ -274,5 +279,227 @@ theorem cg_inconsistent_sound_partial (M : Model) (ν : BaseValues) (hν : ν.Di
         · exact hν n1 heq
         · exact hν n1 heq.symm
         · exact hs rfl
+
+/-! ## 3b. the probability clauses, relative to Lemma 24 for the merges that are performed -/
+
+/-- the merges `(event at that moment, a, b)` that `make_counterfactual_graph` performs on this input -/
+def cgTrace (ordf : List World → List World) (G : MG Name) (ev : Event) (topo : List Name) : List (Event × Var × Var) :=
+  traceOf (.run (cf0 G (ordf (extractInterventions ev.keys))) ev) (allPairs (ordf (extractInterventions ev.keys)) topo)
+
+open Fscm in
+/-- **Probability clauses of C18, relative form.**  Let `M` be any functional SCM and `ν` base values with `x ≠ x'`.  If for
+every merge the construction performs on this input the conclusion of Lemma 24 holds in `M` (`Lemma24For`: the two merged
+nodes agree wherever the other conjuncts of the current event hold), then
+  * the relabelled event has the same probability as the original event, and
+  * 'inconsistent' is reported only if the original event has probability 0.
+(The worlds are iterated as a duplicate-free list of non-empty subscript sets — what a Python set of frozensets of a
+non-empty `interventions` field is; the event is a dict whose values are named after their variables.) -/
+theorem cg_prob_partial (M : Model) (ν : BaseValues) (hν : ν.Distinct)
+    (ordf : List World → List World) (G : MG Name) (ev : Event) (topo : List Name)
+    (htopo : G.topologicalSort = .ok topo)
+    (hws : (ordf (extractInterventions ev.keys)).Nodup) (hwne : ∀ w ∈ ordf (extractInterventions ev.keys), w ≠ [])
+    (hnd : ev.keys.Nodup) (hwf : ∀ p ∈ ev, p.2.name = p.1.name)
+    (hL : ∀ t ∈ cgTrace ordf G ev topo, Lemma24For M ν t) :
+    (∀ g ev', makeCounterfactualGraph ordf G ev = .ok (g, some ev') → probEvent M ν ev' = probEvent M ν ev) ∧
+    (∀ g, makeCounterfactualGraph ordf G ev = .ok (g, none) → probEvent M ν ev = 0) := by
+  have hinv : SemInv M ν ev (loopResult ordf G ev topo) := by
+    unfold loopResult
+    rw [mergeLoop_eq]
+    exact semInv_runPairs M ν hν ev _ (allPairs_ne _ hws hwne topo) _
+      ⟨fun _ => Iff.rfl, hnd, hwf⟩ hL
+  constructor
+  · intro g ev' h
+    obtain ⟨topo', cf', anc, ht, hl, _, _⟩ := cg_some_shape h
+    rw [htopo] at ht
+    cases ht
+    rw [hl] at hinv
+    exact probEvent_congr M ν ev' ev hinv.1
+  · intro g h
+    obtain ⟨topo', ht, hl⟩ := cg_none_shape h
+    rw [htopo] at ht
+    cases ht
+    rw [hl] at hinv
+    exact hinv
+
+open Fscm in
+/-- **Lemma 24, reduced to its premise.**  For a merge of two copies `V_S`, `V_T` of a variable that neither world forces, the
+hypothesis `Lemma24For` of `cg_prob_partial` holds as soon as the PARENTS of `V` (in the model) take the same values in the
+two worlds wherever the remaining conjuncts of the event hold — the two copies have the same mechanism and share the
+noise (`solve_eq_of_parents_eq`, the structural equation).  What stays open is that the syntactic test of cg.py
+(`parents_attain_same_values`) guarantees this premise. -/
+theorem lemma24For_of_parents (M : Model) (G : MG Name) (hM : Compatible M G) (ν : BaseValues) (ev : Event) (a b : Var)
+    (hname : a.name = b.name) (hv : a.name ∈ M.order)
+    (ha : forced (worldOf ν a.ivs) a.name = none) (hb : forced (worldOf ν b.ivs) b.name = none)
+    (hpa : ∀ u, (∀ p ∈ ev, p.1 ≠ a → p.1 ≠ b → holds M u (conjunctOf ν p) = true) →
+      ∀ p ∈ M.pa a.name, solve M u (worldOf ν a.ivs) p = solve M u (worldOf ν b.ivs) p) :
+    Lemma24For M ν (ev, a, b) := by
+  intro u hu
+  simp only [valueOf]
+  rw [← hname] at hb ⊢
+  exact solve_eq_of_parents_eq M hM.topoOrder u _ _ a.name hv ha hb (hpa u hu)
+
+open Fscm in
+/-- unconditional instance: two un-forced copies of a variable WITHOUT parents are the same random variable, so merging them
+is always sound -/
+theorem lemma24For_root (M : Model) (G : MG Name) (hM : Compatible M G) (ν : BaseValues) (ev : Event) (a b : Var)
+    (hname : a.name = b.name) (hv : a.name ∈ M.order) (hroot : M.pa a.name = [])
+    (ha : forced (worldOf ν a.ivs) a.name = none) (hb : forced (worldOf ν b.ivs) b.name = none) :
+    Lemma24For M ν (ev, a, b) :=
+  lemma24For_of_parents M G hM ν ev a b hname hv ha hb (fun _ _ p hp => by simp [hroot] at hp)
+
+/-! ## 3c. the probability clauses, UNCONDITIONALLY (Lemma 24 for the test as coded is proved in Lemmas/CfLemma24) -/
+
+open Fscm in
+/-- **C18, probability clauses.**  For every functional SCM `M` compatible with the (loop-free) graph `G`, all base values
+with `x ≠ x'`, every well-formed event dict and every iteration order of its worlds (a duplicate-free list of non-empty,
+consistent subscript sets): if the nodes of `G` are processed parents-first (what `topological_sort` delivers),
+  * the relabelled event returned by `make_counterfactual_graph` has the SAME probability as the original event, and
+  * 'inconsistent' is returned ONLY IF the original event has probability 0.
+The proof carries two invariants through the merge loop: every parent of every un-intervened node is represented by a
+parent node of equal value (on the noise points where the conjuncts about earlier variables hold), and every
+name-prefix-restricted support of the current event equals that of the original one; `lemma24_of_test` derives the
+conclusion of Lemma 24 from `lemma_24_holds(...) = True` under these invariants. -/
+theorem cg_prob (M : Model) (ν : BaseValues) (hν : ν.Distinct) (G : MG Name) (hM : Compatible M G) (hG : G.WF)
+    (hdl : ∀ e ∈ G.di, e.1 ≠ e.2) (hbl : ∀ e ∈ G.bi, e.1 ≠ e.2)
+    (ordf : List World → List World) (ev : Event) (hev : EvOK ev) (topo : List Name)
+    (htopo : G.topologicalSort = .ok topo) (hpf : ∀ v, ∀ p ∈ M.pa v, Before topo v p)
+    (hws : (ordf (extractInterventions ev.keys)).Nodup) (hwne : ∀ w ∈ ordf (extractInterventions ev.keys), w ≠ [])
+    (hwcs : ∀ w ∈ ordf (extractInterventions ev.keys), ConsistentSubs w) :
+    (∀ g ev', makeCounterfactualGraph ordf G ev = .ok (g, some ev') → probEvent M ν ev' = probEvent M ν ev) ∧
+    (∀ g, makeCounterfactualGraph ordf G ev = .ok (g, none) → probEvent M ν ev = 0) := by
+  let c : Ctx := ⟨M, ν, G, topo, ev⟩
+  have hc : c.OK := ⟨hM, hν, hpf⟩
+  have hinit : FullInv c (.run (cf0 G (ordf (extractInterventions ev.keys))) ev) :=
+    ⟨repInv_cfInit c hc hG hdl hbl _ hws hwne hwcs, ⟨fun _ _ _ => Iff.rfl, hev⟩⟩
+  have hinv : FullInv c (loopResult ordf G ev topo) := by
+    unfold loopResult
+    rw [mergeLoop_eq]
+    exact fullInv_runPairs c hc hdl _ (allPairs_ne _ hws hwne topo) _ hinit
+  constructor
+  · intro g ev' h
+    obtain ⟨topo', cf', anc, ht, hl, _, _⟩ := cg_some_shape h
+    rw [htopo] at ht
+    cases ht
+    rw [hl] at hinv
+    apply probEvent_congr
+    intro u
+    rw [← allHoldN_true, ← allHoldN_true]
+    exact hinv.2.sup (fun _ => True) (fun _ _ _ _ => trivial) u
+  · intro g h
+    obtain ⟨topo', ht, hl⟩ := cg_none_shape h
+    rw [htopo] at ht
+    cases ht
+    rw [hl] at hinv
+    exact hinv
+
+/-- the side conditions of `cg_prob_partial` on the worlds hold for the identity order (hence for every permutation of it) -/
+theorem extractInterventions_ok (vs : List Var) :
+    (extractInterventions vs).Nodup ∧ ∀ w ∈ extractInterventions vs, w ≠ [] := by
+  unfold extractInterventions
+  refine ⟨nodup_dedup' _, ?_⟩
+  intro w hw
+  rw [mem_dedup'] at hw
+  simp only [List.mem_map, List.mem_filter] at hw
+  obtain ⟨v, ⟨_, hv⟩, rfl⟩ := hw
+  simp only [Var.isCf, Bool.not_eq_eq_eq_not, Bool.not_true, List.isEmpty_eq_false_iff] at hv
+  exact hv
+
+/-! ## 4. non-vacuity: concrete runs of the model (kernel-evaluated) -/
+
+namespace Example
+/-- `B → A` (names: `A = 0`, `B = 1`) -/
+def gBA : MG Name := MG.fromEdges [0, 1] [(1, 0)] []
+def A : Var := Var.plain 0
+def B : Var := Var.plain 1
+def A_b : Var := { name := 0, ivs := [⟨1, false⟩] }
+
+def isInconsistentResult : Except Err (MG Var × Option Event) → Bool
+  | .ok (_, none) => true
+  | _ => false
+
+/-- `A_b = a ∧ A = a' ∧ B = b` is reported inconsistent (the witness of `cg_inconsistent_has_witness` exists) -/
+example : isInconsistentResult
+    (makeCounterfactualGraph sortWorlds gBA [(A_b, ⟨0, false⟩), (A, ⟨0, true⟩), (B, ⟨1, false⟩)]) = true := by decide
+
+/-- `A_b = a ∧ B = b`: `A_b` is merged into `A`; the result is the graph `B → A` with the relabelled event `A = a ∧ B = b`
+(hypotheses of `cg_event_in_nodes`, `cg_is_ancestral`, `cg_acyclic` are satisfiable) -/
+example : (match makeCounterfactualGraph sortWorlds gBA [(A_b, ⟨0, false⟩), (B, ⟨1, false⟩)] with
+    | .ok (g, some ev') => decide (g.nodes.length = 2) && decide (ev'.keys = [B, A]) && decide (g.di = [(B, A)])
+    | _ => false) = true := by decide
+
+/-- the witness of the `fix:` ce3041e: `A_b = a ∧ B = b ∧ B_b = b` keeps the self-intervened event variable `B_b` -/
+example : (match makeCounterfactualGraph sortWorlds gBA
+      [(A_b, ⟨0, false⟩), (B, ⟨1, false⟩), ({ name := 1, ivs := [⟨1, false⟩] }, ⟨1, false⟩)] with
+    | .ok (g, some ev') => ev'.keys.all (fun k => elem' k g.nodes)
+    | _ => false) = true := by decide
+
+/-- a cyclic input is the error case of `cg_error_iff_cyclic` -/
+example : (match makeCounterfactualGraph sortWorlds (MG.fromEdges [] [(0, 1), (1, 0)] []) [(A_b, ⟨0, false⟩)] with
+    | .error (.internal "NetworkXUnfeasible") => true
+    | _ => false) = true := by decide
+
+open Fscm in
+/-- the hypotheses of `cg_prob` are satisfiable: a concrete functional SCM compatible with `B → A` (private binary noise
+for each variable, `B := u₀`, `A := B xor u₁`) -/
+def mBA : Model where
+  order := [1, 0]
+  noise := [[1/3, 2/3], [1/4, 3/4]]
+  pa := fun v => if v = 0 then [1] else []
+  lat := fun v => if v = 0 then [1] else if v = 1 then [0] else []
+  f := fun v ps us => if v = 1 then us.getD 0 0 else (ps.getD 0 0 + us.getD 0 0) % 2
+
+open Fscm in
+example : Compatible mBA gBA := by
+  refine ⟨by decide, by decide, ?_, ?_, ?_⟩
+  · intro v p hp
+    by_cases hv : v = 0
+    · subst hv
+      simp only [mBA, if_true, List.mem_singleton] at hp
+      subst hp
+      decide
+    · simp [mBA, hv] at hp
+  · intro l₁ v l₂ h p hp
+    by_cases hv : v = 0
+    · subst hv
+      simp only [mBA, if_true, List.mem_singleton] at hp
+      subst hp
+      have h' : [1, 0] = l₁ ++ 0 :: l₂ := h
+      rcases l₁ with _ | ⟨x, l₁⟩
+      · simp at h'
+      · simp only [List.cons_append, List.cons.injEq] at h'
+        rw [← h'.1]; simp
+    · simp [mBA, hv] at hp
+  · intro v w hvw hsh
+    obtain ⟨j, hj1, hj2⟩ := hsh
+    exfalso
+    by_cases hv : v = 0
+    · subst hv
+      simp only [mBA, if_true, List.mem_singleton] at hj1
+      subst hj1
+      by_cases hw : w = 0
+      · exact hvw hw.symm
+      · by_cases hw1 : w = 1 <;> simp [mBA, hw, hw1] at hj2
+    · by_cases hv1 : v = 1
+      · subst hv1
+        simp only [mBA] at hj1
+        simp at hj1
+        subst hj1
+        by_cases hw : w = 0
+        · subst hw; simp [mBA] at hj2
+        · by_cases hw1 : w = 1
+          · exact hvw hw1.symm
+          · simp [mBA, hw, hw1] at hj2
+      · simp [mBA, hv, hv1] at hj1
+
+/-- … and the processing order `[B, A]` lists parents first -/
+example : ∀ v, ∀ p ∈ mBA.pa v, Before [1, 0] v p := by
+  intro v p hp
+  by_cases hv : v = 0
+  · subst hv
+    simp only [mBA, if_true, List.mem_singleton] at hp
+    subst hp
+    simp [Before]
+  · simp [mBA, hv] at hp
+end Example
 
 end Y0.Cf
